@@ -21,7 +21,8 @@ class TLCError(RuntimeError):
 
 
 def _java(args: List[str], env: Dict[str, str], timeout: int, cwd: str = SPEC, xmx: str = "8g") -> Tuple[int, str]:
-    cmd = ["java", "-XX:+UseParallelGC", f"-Xmx{xmx}", "-Xss256m", "-cp", JAR, "tlc2.TLC"] + args
+    # TLC unpacks its standard modules into java.io.tmpdir (one directory per run, never removed): keep that under the run's scratch root
+    cmd = ["java", "-XX:+UseParallelGC", f"-Xmx{xmx}", "-Xss256m", f"-Djava.io.tmpdir={_scratch()}", "-cp", JAR, "tlc2.TLC"] + args
     e = dict(os.environ)
     e.update(env)
     try:
